@@ -177,7 +177,7 @@ def _c08_adversarial(rng, n) -> List[Dict[str, Any]]:
 
 
 PRE_OPS = ["freeze_features", "freeze_rf", "freeze_dilation", "train_net_only", "train_nas_only", "train_net_and_nas",
-           "summary", "cost", "continuous_cost", "discrete_cost", "train_mode_roundtrip", "export"]
+           "summary", "cost", "continuous_cost", "discrete_cost", "train_mode_roundtrip", "export", "respec", "respec_switch"]
 
 
 def _add_histories(scs, rng, frac=0.4):
